@@ -5,7 +5,7 @@ import common
 import sessioncheck
 
 INFO = {
-    'proof_files': ['Proofs/ConnProofs.v'],
+    'proof_files': ['Proofs/ConnProofs.v', 'Proofs/HistorySpecA.v', 'Proofs/HistorySpecB.v', 'Proofs/HistorySpecC.v', 'Proofs/HistorySpecD.v'],
     'assumptions': [
         'theorems are about WD.Conn (create_object / retrieve_latest / resolve_msg) folded over arbitrary histories; tied to core/connection_impl.py, core/wl/message.py, core/wl/arg.py by running generated well-formed histories through parse.into_sink and comparing (type,id,generation) of every target / object argument / new-id / delete_id subject and the whole object table with the model',
         'history generator: protocol-aware client/server simulator with lowest-free-id allocation, server-range ids, binds, zombie mentions',
@@ -41,4 +41,5 @@ def replay(dis):
     m = common.model_eval('session', [[sessioncheck.mcfg(c['config']), c['events']]], shards=1)[0]
     r = sessioncheck.compare_case(c, m)
     print('differences:', r)
-    return 0
+    print('REPRODUCED' if r and r != 'oom' else 'not reproduced on the current tree')
+    return 1 if r and r != 'oom' else 0
